@@ -589,7 +589,31 @@ func (g *PG) builtinCall(sc *scope, ty Ty, depth int) Val {
 		}
 		return g.literal(TySym)
 	default:
-		switch pick("get", "identity", "car", "nth", "aref", "if-any", "typed") {
+		switch pick("get", "identity", "car", "nth", "aref", "if-any", "typed", "combinator", "combinator") {
+		case "combinator":
+			g.stat("combinator")
+			switch g.n(0, 7, "comb") {
+			case 0:
+				return L(Call("compose", S(pick("-", "to-string", "not", "list")), S(pick("+", "*", "max", "list"))), g.Expr(sc, TyInt, depth-1), g.Expr(sc, TyInt, depth-1))
+			case 1:
+				return Call("funcall", Call("compose", S(pick("car", "length", "not", "first")), S(pick("cdr", "rest", "reverse2", "list"))), g.Expr(sc, TyList, depth-1))
+			case 2:
+				return L(Call("flip", S(pick("-", "cons", "<", "nth", "list", "append2"))), g.Expr(sc, TyAny, depth-1), g.Expr(sc, TyAny, depth-1))
+			case 3:
+				return Call("unpack", S(pick("+", "list", "max", "cons")), g.Expr(sc, TyList, depth-1))
+			case 4:
+				// an unbound or non-function designator
+				return Call("compose", S(pick("car", "-")), rapid.SampledFrom([]Val{QS("no-such-function"), I(5), QS("car"), S("if")}).Draw(g.t, "badfn"))
+			case 5:
+				p := g.freshName()
+				inner := &scope{vars: []varInfo{{name: p, ty: TyInt}}, parent: sc}
+				lam := L(S("lambda"), L(S(p), S("&optional"), S("o")), g.Expr(inner, TyInt, depth-1))
+				return L(Call("compose", S("-"), lam), g.Expr(sc, TyInt, depth-1))
+			case 6:
+				return Call("search-sorted", I(int64(g.n(-1, 9, "n"))), L(S("lambda"), L(S("i")), L(S(">="), S("i"), I(int64(g.n(-2, 9, "threshold"))))))
+			default:
+				return L(Call("compose", Call("flip", S("-")), L(S("lambda"), L(S("a"), S("&rest"), S("r")), L(S("list"), S("a"), S("r")))), g.Expr(sc, TyInt, depth-1), g.Expr(sc, TyInt, depth-1))
+			}
 		case "get":
 			return Call("get", g.Expr(sc, TyMap, depth-1), g.keyLit())
 		case "identity":
